@@ -386,6 +386,25 @@ def bad_offsets(tc):
     return bad
 
 
+def stale_index(tc):
+    """An index that is present must be the index of the current rows.  None if absent or right, else a
+    message.  (Only decidable when the rows can be indexed at all.)"""
+    if not tc.has_index():
+        return None
+    fresh = tc.copy()
+    try:
+        fresh.drop_index()
+        fresh.build_index()
+    except LIBERR:
+        return None
+    a, b = tc.indexes, fresh.indexes
+    ai, ar = [int(x) for x in a.edge_insertion_order], [int(x) for x in a.edge_removal_order]
+    bi, br = [int(x) for x in b.edge_insertion_order], [int(x) for x in b.edge_removal_order]
+    if (ai, ar) != (bi, br):
+        return f"index present after the call (insertion {ai}, removal {ar}) is not the index of the rows ({bi}, {br})"
+    return None
+
+
 def edge_key(m):
     return lambda e: (m.nodes[e[2]][1], e[2], e[3], e[0])
 
@@ -628,7 +647,7 @@ def run_subset(case, ctx):
                     "variant": variant, "model": m.to_json()})
     detail = {"model": m.to_json(), "nodes": lst, "reorder_populations": reorder,
               "remove_unreferenced": remove, "variant": variant, "record_provenance": record}
-    tc = to_tables(m)
+    tc = to_tables(m, with_index=(not scrambled and rng.random() < 0.5))
     arg = lst
     if lst and rng.random() < 0.3:
         import numpy as np
@@ -671,6 +690,10 @@ def run_subset(case, ctx):
         return
     exp = ref_sort(ref_subset(m, lst, reorder, remove))
     d = diff_subset(got, m, lst, exp, remove)
+    ctx.count("subset:index-consistent")
+    msg = stale_index(res)
+    if msg:
+        ctx.violation("subset/stale-index", f"subset({lst}, {kw}) [{variant}]: {msg}", detail)
     for name, msg in d[:3]:
         ctx.violation(f"subset/{name}", f"subset({lst}, reorder_populations={reorder}, remove_unreferenced={remove}) "
                                         f"[{variant}] {name}: {msg}", detail)
@@ -865,7 +888,7 @@ def run_union(case, ctx):
     if rng.random() < 0.5:
         kw = {k: v for k, v in kw.items() if not v}   # all three default to True
         ctx.feature("union:defaults-omitted")
-    stc, otc = to_tables(sm), to_tables(om)
+    stc, otc = to_tables(sm, with_index=rng.random() < 0.5), to_tables(om, with_index=rng.random() < 0.5)
     if variant == "ts":
         # an edge-interval / removed-edge perturbation keeps `other` a valid tree sequence (sub-structure)
         otc.tree_sequence()  # a failure here is an error of the reference subset, not a verdict
@@ -893,6 +916,10 @@ def run_union(case, ctx):
     if bad:
         ctx.violation("union/broken-offsets", f"ragged columns broken {bad}", detail)
         return
+    ctx.count("union:index-consistent")
+    msg = stale_index(res)
+    if msg:
+        ctx.violation("union/stale-index", f"union(node_mapping={mapping}, {kw}) [{variant}]: {msg}", detail)
     cands = [exp, ref_union(sm, om, mapping, add_populations=add_pops, parent_mode="drop")[0]]
     d = best_match(got, cands)
     for name, msg in d[:3]:
